@@ -6,6 +6,7 @@
 //   C05: stored bytes damaged at an arbitrary instant never make a reader crash,
 //        hang or throw something that is not a std::exception.
 #include <algorithm>
+#include <climits>
 #include <cstring>
 
 #include "rawdb.hpp"
@@ -249,6 +250,33 @@ Foreign gen_foreign(uint64_t seed, int size)
         f.lp.loops.push_back(l);
     }
     f.lp.extra = gen_tail(r, size);
+    if (size >= 2 && r.chance(1, 5))
+    {
+        // uncompressed payloads of exactly k x 16 KiB (or one byte either side): the chunk boundary of the codec loops
+        auto pad = [&](Bytes& extra, size_t without) {
+            long d = r.chance(1, 2) ? 0 : (long)r.below(3) - 1;
+            long target = 16384 * (long)((without + 16383) / 16384 + r.below(2)) + d;
+            if (target <= (long)without)
+                target += 16384;
+            extra.assign((size_t)(target - (long)without), 0);
+            for (size_t i = 0; i < extra.size(); i += 5)
+                extra[i] = (uint8_t)r.below(256);
+        };
+        switch (r.below(4))
+        {
+            case 0: pad(f.td.extra, 44); break;
+            case 1: pad(f.ov.extra, 27 + 3 * f.ov.pts.size()); break;
+            case 2: pad(f.bd.extra, 33 + 24 * (f.bd.def.size() + f.bd.adj.size())); break;
+            default:
+            {
+                size_t n = 25;
+                for (auto& c : f.qc.cues)
+                    n += 13 + c.label.size();
+                pad(f.qc.extra, n);
+                break;
+            }
+        }
+    }
     return f;
 }
 
@@ -769,7 +797,9 @@ void World::corrupt_blob(const Step& s, int ti)
     Bytes payload = *pays[kind];
     const bool compressed = kind != 4;
     Bytes cell = pristine;
-    unsigned oper = (unsigned)((uint64_t)arg(2) % 12);
+    unsigned oper = (unsigned)((uint64_t)arg(2) % 13);
+    if (oper == 12 && kind != 2)
+        oper = 2;
     std::string what;
     auto rewrap = [&](const Bytes& p) { return compressed ? ref::zwrap(p, 6) : p; };
     switch (oper)
@@ -779,6 +809,14 @@ void World::corrupt_blob(const Step& s, int ti)
             size_t L = cell.empty() ? 0 : (size_t)((uint64_t)arg(3) * 2654435761ull % cell.size());
             if (cell.size() <= 1000)
                 L = cell.empty() ? 0 : (size_t)((uint64_t)arg(3) % cell.size());
+            else if (r.chance(1, 3))
+            {
+                // stored lengths around whole multiples of the decompressor's 16 KiB input chunk (+ the 4-byte prefix)
+                static const size_t edge[] = {16388, 16387, 16389, 32772, 32771, 32773, 49156, 16384, 4, 5};
+                size_t e = edge[r.below(10)];
+                if (e < cell.size())
+                    L = e;
+            }
             cell.resize(L);
             what = "cell truncated to " + std::to_string(L) + " of " + std::to_string(pristine.size());
             break;
@@ -907,6 +945,33 @@ void World::corrupt_blob(const Step& s, int ti)
                     cell[i] = 0;
             }
             what = "a range of the stored bytes zeroed";
+            break;
+        }
+        case 12:  // beat grid: marker indices and beat counts moved to the edges of their integer types, order kept
+        {
+            ref::BeatData bdv;
+            std::string e;
+            if (!ref::dec_beat(payload, bdv, e))
+            {
+                cell.resize(cell.size() / 2);
+                what = "beat data not decodable: halved instead";
+                break;
+            }
+            static const int32_t beats[] = {1, 4, INT32_MAX, INT32_MIN, -1, 0, 65536};
+            bool high = r.chance(1, 2);
+            for (auto* g : {&bdv.def, &bdv.adj})
+            {
+                size_t n = g->size();
+                for (size_t i = 0; i < n; ++i)
+                {
+                    (*g)[i].beat = high ? (int64_t)INT32_MAX - (int64_t)(n - 1 - i) : (int64_t)INT32_MIN + (int64_t)i;
+                    if (r.chance(1, 8))
+                        (*g)[i].beat = high ? INT64_MAX - (int64_t)(n - 1 - i) : INT64_MIN + (int64_t)i;
+                    (*g)[i].beats_to_next = r.chance(1, 2) ? (i + 1 < n ? 1 : 0) : beats[r.below(7)];
+                }
+            }
+            cell = rewrap(ref::enc_beat(bdv));
+            what = std::string("beat grid indices moved to the ") + (high ? "upper" : "lower") + " edge of int";
             break;
         }
         default:  // torn write: a range duplicated
@@ -1053,6 +1118,9 @@ void World::corrupt_grid(const Step& s, int ti)
         case 0:  // every truncation of the stored cell
             for (size_t L = 0, st = stride(pristine.size() + 1); L <= pristine.size(); L += st)
                 variants.emplace_back(pristine.begin(), pristine.begin() + (long)L);
+            for (size_t L : {(size_t)16384, (size_t)16387, (size_t)16388, (size_t)16389, (size_t)32772, (size_t)49156})
+                if (L < pristine.size())
+                    variants.emplace_back(pristine.begin(), pristine.begin() + (long)L);
             break;
         case 1:  // every truncation of the payload inside an intact frame
             for (size_t L = 0, st = stride(payload.size() + 1); L <= payload.size(); L += st)
